@@ -348,7 +348,7 @@ func runHistoryWith[G algebra.PrimeGroupElement[G, S], S algebra.PrimeFieldEleme
 		if err != nil {
 			return harness.Outcome{Violation: &harness.Violation{Class: "policy-refused", Site: "accessstructures", Detail: err.Error()}}
 		}
-		if !refusedByDesign(kit, spec) {
+		if spec.expectRefusal == "" && !refusedByDesign(kit, spec) {
 			break
 		}
 	}
@@ -440,16 +440,26 @@ func runHistoryWith[G algebra.PrimeGroupElement[G, S], S algebra.PrimeFieldEleme
 			h.probes["op_recover"]++
 		case op <= 5: // redistribute to another structure / holder set
 			var next *acSpec
+			sameHolders := w.IntN(3) == 0 // another policy over exactly the same holders
 			for tries := 0; tries < 20; tries++ {
-				cand, err := genAccess(w, 2+w.IntN(3), "")
+				var cand *acSpec
+				var err error
+				if sameHolders {
+					cand, err = genAccess(w, len(cur.spec.ids), "", cur.spec.ids)
+					if err == nil && cand.desc == cur.spec.desc {
+						continue
+					}
+				} else {
+					cand, err = genAccess(w, 2+w.IntN(3), "")
+				}
 				if err != nil {
 					return finish(&harness.Violation{Class: "policy-refused", Site: "accessstructures", Detail: err.Error()})
 				}
-				if refusedByDesign(kit, cand) {
+				if cand.expectRefusal != "" || refusedByDesign(kit, cand) {
 					continue
 				}
 				// keep some holders: remap a random subset of the new ids onto old holders
-				if w.IntN(3) != 0 {
+				if !sameHolders && w.IntN(3) != 0 {
 					cand = remapOnto(w, cand, cur.spec.ids)
 				}
 				if cand != nil {
@@ -481,6 +491,9 @@ func runHistoryWith[G algebra.PrimeGroupElement[G, S], S algebra.PrimeFieldEleme
 			}
 			h.epochs = append(h.epochs, ne)
 			h.probes["op_redistribute"]++
+			if sameHolders {
+				h.probes["redistribute_same_holders_other_policy"]++
+			}
 			h.probes["to_family_"+next.kind]++
 		case op == 6: // sign with the current shards
 			q := drawQuorum(w, cur.spec, false, h.probes)
